@@ -29,6 +29,7 @@ STUB = ['multiprocessing.Pool -> sim.simpool.SimPool (real forked workers, parke
         'one runs at a time, seeded choice of which)', 'datetime.utcnow / time.perf_counter -> SimClock (per-worker skew, jumps)',
         'input files -> independent producers worlds/{bit,dlis_logical,lis_logical,las,dat,foreign}.py + sim/damage.py']
 ASSUMPTIONS = [
+    'simulated machine: every process that runs library code has a 4 GiB address space (sim/runner.py MEMORY_LIMIT_BYTES); a request for more fails at once with MemoryError',
     'SimPool models the fork start method with chunk size 1 as the code uses it; spawn is not modelled',
     'ENOSPC/EIO on output are not injected: the statement is about bad input files',
     'of a damaged or foreign file itself nothing is demanded beyond: a result is reported, no exception escapes, no effect on other files',
@@ -36,11 +37,12 @@ ASSUMPTIONS = [
     'inside buffered write() calls is not explored',
     'step budget per file 6e6 + 4000*len(file) monitored events (PY_START + JUMP)',
 ]
-PROBES = ['damaged_file_fault_fired', 'exception_in_file_typing', 'exception_in_converter', 'two_inputs_one_output', 'worker_ge3_tasks',
+PROBES = ['hidden_or_glob_name', 'damaged_file_fault_fired', 'exception_in_file_typing', 'exception_in_converter', 'two_inputs_one_output', 'worker_ge3_tasks',
           'bad_file_first', 'channel_subset_overlap', 'jobs_gt_files', 'jobs_eq_1', 'foreign_file', 'other_format_file', 'subdir', 'ignored_result',
           'schedule_explicit', 'clock_skew', 'healthy_converted']
 
-STEMS = ['a', 'b', 'c', 'A', 'ab', 'well', 'w1', 'B']
+STEMS = ['a', 'b', 'c', 'A', 'ab', 'well', 'w1', 'B', '.hidden', 'w.v2', 'a_b', 'a b', 'x[1]']
+SUBDIRS = ['sub', 'sub', 'Run [2]', '.cache', 'a.dir']
 CHANNEL_POOL = {
     'bit': ['COND', 'SN  ', 'SP  ', 'GR  ', 'CAL ', 'TEN ', 'DEPT', 'TIME', 'RHOB'],
     'rp66v1': ['DEPT', 'TIME', 'GR', 'CAL', 'TENS', 'RHOB', 'NPHI', 'TDEP', 'INDEX'],
@@ -86,7 +88,7 @@ def gen_files(rng, converter, names, tier):
         for _try in range(20):
             stem = rng.pick(STEMS)
             ext = rng.pick(batch.EXT[native]) if rng.chance(0.7) else rng.pick(batch.EXT.get(world, ['']))
-            sub = 'sub/' if rng.chance(0.2) else ''
+            sub = (rng.pick(SUBDIRS) + '/') if rng.chance(0.2) else ''
             path = sub + stem + ext
             # a path may neither repeat nor be a directory prefix of another
             if path not in used and path.lower() not in {u.lower() + '/x' for u in used}:
@@ -109,8 +111,8 @@ def gen_files(rng, converter, names, tier):
             nf = rng.wpick([(6, 1), (2, 2), (1, 3)])
             spec['faults'] = [damage.gen_fault(rng, len(by), fields) for _ in range(nf)]
         files.append(spec)
-    if 'sub' in used:
-        files = [f for f in files if f['path'] != 'sub']
+    dirs = {f['path'].split('/')[0] for f in files if '/' in f['path']}
+    files = [f for f in files if f['path'] not in dirs]
     return files
 
 
@@ -173,6 +175,8 @@ def _execute(scenario, res, br):
             res.probe('other_format_file')
         if '/' in rel:
             res.probe('subdir')
+        if any(part.startswith('.') or '[' in part for part in rel.split('/')):
+            res.probe('hidden_or_glob_name')
     if cfg['channels']:
         res.probe('channel_subset_overlap')
 
@@ -333,12 +337,12 @@ def _execute(scenario, res, br):
     return res
 
 
-def evidence_extra(ok_runs):
-    sched = set()
-    for r in ok_runs:
-        for s in r.get('notes', {}).get('schedules', []):
-            sched.add(s)
-    return {'distinct_schedules': len(sched),
+def evidence_accumulate(acc, r):
+    acc.setdefault('sched', set()).update(r.get('notes', {}).get('schedules', []))
+
+
+def evidence_extra(acc):
+    return {'distinct_schedules': len(acc.get('sched', ())),
             'distinct_schedules_measure': 'hash of the (worker, operation-kind) sequence of each SimPool run'}
 
 
